@@ -22,7 +22,8 @@ RULE = ("polynomial conditions of degree <= 3 and quotients by a monomial over <
         "near-integers k +- 1e-5, sub-precision values and constants of drawn magnitude (up to 1e7) with 0-7 decimals, all comparison operators, 0-2 linear equalities usable for "
         "elimination, decimal digits 0..6 and the default; entry points simplify_complex_numeric_expression, "
         "simplify_inequality, simplify_equality, simplify_complex_numerical_pddl_expression and "
-        "Precondition.print(should_simplify=True).  Non-trivial = >= 2 fluents and a product, or an equality used "
+        "Precondition.print(should_simplify=True); 1 case in 5 is judged after the same condition and its twin spelling "
+        "(?x <-> x) went through the same entry point in the same process.  Non-trivial = >= 2 fluents and a product, or an equality used "
         "for elimination.  Distinct by case.")
 ASSUMPTIONS = ["24 evaluation points per case with coordinates in +-{1/2,1,3/2,2,3,4}; points where the input is "
                "undefined are skipped",
@@ -219,14 +220,21 @@ def judge_equivalence(res, tag, info, in_cond, out_ast, points, digits, need_pos
             res.bad(f"C13/{tag}/output-mentions-unknown-fluent", {**info, "fluent": str(e)})
             return
         tol = allowance(out_ast, p, digits)
+        # a coefficient that rounds to zero takes its whole term out of the output (0.5 at 0 decimals): the rounding
+        # may have happened in the input's own form, so its propagated bound is allowed as well (scaled by k below)
+        try:
+            pin = propagated(in_cond, p, Fraction(1, 2 * 10 ** digits))
+        except (KeyError, ZeroDivisionError, ValueError):
+            pin = None
+        tol_in = pin[1] if pin is not None else Fraction(0)
         if k is None:
-            if abs(din) <= tol * 4:
-                if abs(dout) > tol * 4 and abs(din) == 0:
+            if abs(din) <= (tol + tol_in) * 4:
+                if abs(dout) > (tol + tol_in) * 4 and abs(din) == 0:
                     res.bad(f"C13/{tag}/not-equivalent", {**info, "point": {a: str(b) for a, b in p.items()}, "input_delta": str(din), "output_delta": str(dout)})
                     return
                 continue
             k = dout / din
-            k_err = tol / abs(din)          # the scale itself is only known up to the rounding at this point
+            k_err = (tol + tol_in * abs(k)) / abs(din)          # the scale itself is only known up to the rounding at this point
             if abs(k) < Fraction(1, 1000) / coef_mass(in_cond) or (need_positive and k < 0):
                 res.bad(f"C13/{tag}/not-equivalent", {**info, "point": {a: str(b) for a, b in p.items()}, "input_delta": str(din), "output_delta": str(dout), "note": "sign or zero scale"})
                 return
@@ -234,7 +242,7 @@ def judge_equivalence(res, tag, info, in_cond, out_ast, points, digits, need_pos
                 pass
             checked += 1
             continue
-        if abs(dout - k * din) > tol * (1 + abs(k)) * 2 + abs(din) * k_err * 2:
+        if abs(dout - k * din) > tol * (1 + abs(k)) * 2 + tol_in * abs(k) * 2 + abs(din) * k_err * 2:
             res.bad(f"C13/{tag}/not-equivalent", {**info, "point": {a: str(b) for a, b in p.items()}, "input_delta": str(din), "output_delta": str(dout), "scale": str(k)})
             return
         checked += 1
@@ -324,7 +332,36 @@ def k4_trigger(case):
     return None
 
 
+TWIN = {"?x": "x", "?y": "y", "?p1": "p1", "t1": "?t1", "a-b": "?a-b", "c_d": "?c_d"}
+
+
+def twin_case(case):
+    """The same case over the twin spelling of every argument (?x <-> x): another, equally valid input whose
+    fluents differ from the original's only by the question marks."""
+    def tw(x):
+        if isinstance(x, list):
+            return [tw(y) for y in x]
+        return TWIN.get(x, x) if isinstance(x, str) else x
+    out = {k: (tw(v) if k in ("conds", "equalities", "expr") else v) for k, v in case.items() if k != "history"}
+    out["fluents"] = [[n, [TWIN.get(a, a) for a in args]] for n, args in case["fluents"]]
+    return out
+
+
 def check_case(case):
+    if case.get("history"):
+        # a history of calls in one process: the same condition, its twin spelling, then the judged call - a call's
+        # output must not depend on what was simplified before
+        plain = {k: v for k, v in case.items() if k != "history"}
+        validate(plain)
+        for earlier in (plain, twin_case(plain)):
+            try:
+                check_case(earlier)
+            except Exception:  # noqa: the earlier calls are judged when they are generated as cases of their own
+                pass
+        r = check_case(plain)
+        r.classes = [c + "+history" for c in r.classes]
+        r.key = "history:" + (r.key or json.dumps(plain, sort_keys=True))
+        return r
     res = Res()
     allowed = validate(case)
     entry = case["entry"]
@@ -601,6 +638,8 @@ def gen(ch, tier):
             return ["*", gen_poly(ch, terms, 1, cls, 2), gen_poly(ch, terms, 1, cls, 2)]
         return gen_poly(ch, terms, maxdeg, cls)
     case = {"entry": entry, "fluents": fl, "digits": digits}
+    if ch.flag(0.2):
+        case["history"] = True
     rhs = (lambda: gen_coef(ch, cls) if ch.flag(0.5) else gen_poly(ch, terms, 1, cls, 1))
     if entry == "expr":
         case["expr"] = side()
@@ -622,6 +661,20 @@ def gen(ch, tier):
             rest = gen_poly(ch, others, 1, "dec" if cls in ("near", "tiny", "long") else cls, ch.int(1, 2))
             eqs.append(["=", ["+", list(a), rest], ch.choice(["0", "0", gen_coef(ch, "int")])])
         case["equalities"] = eqs
+    if entry == "print" and len(terms) >= 2 and "equalities" not in case and ch.flag(0.25):
+        # two conditions of one shape whose constants agree at the printed resolution and differ below it, scaled
+        # back up by a common factor: (4x + y <= r) and (x + 4y <= r) written with 0.004 * 1000 at 2 decimals
+        d_eff = digits if digits is not None else 2
+        tiny = lambda a: "0." + "0" * d_eff + str(a)
+        big = "1" + "0" * (d_eff + 1)
+        x, y = [list(tm) for tm in ch.sample(terms, 2)]
+        a1, a2 = ch.choice([(4, 1), (3, 1), (1, 2), (2, 4)])
+        r = ch.choice(["10", "5", "-3", "7.5"])
+
+        def cond(p, q):
+            return [op if op != "=" else "<=", ["+", ["*", ["*", x, tiny(p)], big], ["*", ["*", y, tiny(q)], big]], r]
+        case["conds"] = [cond(a1, a2), cond(a2, a1)]
+        return case
     if entry == "print":
         for _ in range(ch.int(0, 2)):
             op2 = ch.choice(["<", "<=", ">", ">=", "="])
